@@ -5,6 +5,8 @@ import (
 	"encoding/json"
 	"flag"
 	"fmt"
+	"io"
+	"log"
 	"os"
 	"runtime/debug"
 	"strings"
@@ -26,6 +28,7 @@ func main() {
 	args := flag.String("args", "", "k=v,k=v extra arguments")
 	flag.Parse()
 	debug.SetMaxStack(256 << 20)
+	log.SetOutput(io.Discard) // go-openapi/spec logs resolution errors on the standard logger
 
 	if *replay != "" {
 		b, err := os.ReadFile(*replay)
